@@ -477,6 +477,23 @@ func exprD(v ssa.Value, d int, seen *ectx) string {
 					delete(seen.m, v)
 					return s
 				}
+			} else if h != nil && isNewFunc(h) && len(call.Call.Args) == len(h.Params) && !seen.m[v] {
+				// a helper introduced later with several call sites (`lb, err := s.verified(ctx, h)` shared by
+				// two callers) that hands back one expression: rendered as that expression, its parameters
+				// as this call's arguments
+				if r := singleResultExpr(h, x.Index); r != nil {
+					sub := map[ssa.Value]string{}
+					for k, val := range seen.sub {
+						sub[k] = val
+					}
+					seen.m[v] = true
+					for i, p := range h.Params {
+						sub[p] = exprD(call.Call.Args[i], d+1, seen)
+					}
+					s := exprD(r, d+1, &ectx{m: seen.m, sub: sub})
+					delete(seen.m, v)
+					return s
+				}
 			}
 		}
 		return exprD(x.Tuple, d, seen) + "#" + fmt.Sprint(x.Index)
@@ -858,6 +875,9 @@ type pathQ struct {
 	blocked func(Edge) bool
 	kill    func(ssa.Instruction) bool
 	target  func(ssa.Instruction) bool
+	// targetEdge: (optional) the search also succeeds when it can take such an edge — feasibly: not blocked,
+	// and not excluded by what the path has decided about the condition
+	targetEdge func(Edge) bool
 }
 
 // reach reports whether a target instruction can be executed starting at (b, idx) without crossing a
@@ -919,6 +939,13 @@ func (q *pathQ) reach(b *ssa.BasicBlock, idx int) (ssa.Instruction, []*ssa.Basic
 				if !feasible {
 					continue // the same condition was decided the other way earlier on this path
 				}
+			}
+			if q.targetEdge != nil && q.targetEdge(Edge{it.b, si}) {
+				var path []*ssa.BasicBlock
+				for k := qi; k >= 0; k = queue[k].prev {
+					path = append([]*ssa.BasicBlock{queue[k].b}, path...)
+				}
+				return it.b.Instrs[len(it.b.Instrs)-1], append(path, s)
 			}
 			only := phiConstSucc(it.b, s)
 			k := vkey{s, only, facts}
@@ -1348,6 +1375,45 @@ func (ge *guardEnv) passEdges(f *ssa.Function, g Guard, depth int) map[Edge]bool
 				continue
 			}
 		}
+		// a boolean local built from comparisons (`tooHigh := max > 0 && max < h; if tooLow || tooHigh {…}`): the
+		// phi of constants and comparisons is branched on; the edge establishes g if every incoming value that
+		// can take it does — by the comparison itself, or (a constant) by the edge on which it was chosen
+		if phi, ok := ea.A.V.(*ssa.Phi); ok && (ea.A.Kind == "true" || ea.A.Kind == "false") && (phi.Block() == ea.E.From || phi.Block().Dominates(ea.E.From)) {
+			if bt, isB := phi.Type().Underlying().(*types.Basic); isB && bt.Kind() == types.Bool {
+				pol := ea.A.Kind == "true"
+				all, any := true, false
+				for i, e := range phi.Edges {
+					cv, isC := boolConst(e)
+					if isC && cv != pol {
+						continue
+					}
+					any = true
+					okE := false
+					if !isC {
+						if _, isCall := stripConv(e).(*ssa.Call); !isCall {
+							okE = g.Match(ge.w, f, normCond(e, pol))
+						}
+					}
+					if !okE {
+						pred := phi.Block().Preds[i]
+						if ifi, isIf := pred.Instrs[len(pred.Instrs)-1].(*ssa.If); isIf && pred.Succs[0] != pred.Succs[1] {
+							for si, sc := range pred.Succs {
+								if sc == phi.Block() && g.Match(ge.w, f, normCond(ifi.Cond, si == 0)) {
+									okE = true
+								}
+							}
+						}
+					}
+					if !okE {
+						all = false
+					}
+				}
+				if all && any {
+					edges[ea.E] = true
+					continue
+				}
+			}
+		}
 		// a boolean flag among several results of an in-module helper (`found, giveUp, err := scan()`): the
 		// edge on which the flag has a value establishes g if every way the helper can answer that value does
 		if depth > 0 && (ea.A.Kind == "true" || ea.A.Kind == "false") {
@@ -1699,7 +1765,32 @@ func (ge *guardEnv) guardedEdge(f *ssa.Function, p, s *ssa.BasicBlock, g Guard, 
 	if all {
 		return true, nil
 	}
-	return ge.guardedLocal(f, p.Instrs[len(p.Instrs)-1], g, depth)
+	// the edge must be *taken*: reaching p on a path that has already decided p's condition the other way
+	// (an error value known non-nil flowing into `if err != nil`) does not count
+	var kill func(ssa.Instruction) bool
+	if depth > 0 {
+		kill = func(in ssa.Instruction) bool {
+			c, ok := in.(*ssa.Call)
+			if !ok {
+				return false
+			}
+			h := staticCallee(c)
+			if h == nil || h.Blocks == nil || !summarisable(h) || hasSuccessIndicator(h) {
+				return false
+			}
+			return ge.ensuresAt(c, h, g, depth-1)
+		}
+	}
+	q := &pathQ{
+		blocked:    func(e Edge) bool { return pe[e] },
+		kill:       kill,
+		targetEdge: func(e Edge) bool { return e.From == p && p.Succs[e.Succ] == s },
+	}
+	if len(f.Blocks) == 0 {
+		return true, nil
+	}
+	hit, path := q.reach(f.Blocks[0], 0)
+	return hit == nil, path
 }
 
 func hasSuccessIndicator(h *ssa.Function) bool {
